@@ -8,8 +8,8 @@ CONSTANTS
   JCmds = {"poll", "hdrop", "cancel", "detach"}
   HCmds = {"tick", "clear", "execdrop"}
   Spurious = TRUE
-  Strict = FALSE
-  Fix = {}
-  MaxLen = 60
+  Strict = TRUE
+  Fix = {"D10a", "D10b", "D11", "D12"}
+  MaxLen = 70
 SPECIFICATION GSpec
 INVARIANTS Emit
